@@ -108,6 +108,8 @@ def draw_scenario(ch: Choices, cancel: bool = False, max_tracers: int = 3) -> Di
         'server_async': bool(ch.draw(2, 'server.async')),
         'cancel_at': None,
         'hand_id': ch.choice(gen.REQ_IDS, 'req.hand_id'),
+        # the call is issued while the caller is handling an unrelated exception (a fallback call inside `except`)
+        'in_except': ch.flag(1, 4, 'caller.in_except'),
     }
     if cancel and ch.flag(1, 2, 'cancel'):
         scn['cancel_at'] = ch.choice([0.0, 0.125, 0.25, 0.5, 0.75, 1.0, 1.5, 2.0, 2.5, 3.0, 4.0, 33.0], 'cancel.at')
@@ -234,20 +236,29 @@ def describe_outcome(w: World, obs: Obs) -> Tuple[Any, ...]:
     return ('raise', type(e).__name__)
 
 
-def run_scenario(w: World, scn: Dict[str, Any], client_async: bool, suffix: str = '', sched: Optional[str] = None) -> Obs:
+def run_scenario(w: World, scn: Dict[str, Any], client_async: bool, suffix: str = '', sched: Optional[str] = None,
+                 reuse: Optional[Stack] = None, tok_prefix: str = 'f') -> Obs:
+    """Execute one scripted request.  With ``reuse`` the request is issued on an existing (long-lived) client /
+    server / network: only the fault script is replaced and the attempt counter restarted."""
     obs = Obs()
     node = 'client' + suffix
-    tracers = [RecTracer(w, i, node) for i in range(scn['tracers'])]
-    st = Stack(
-        w, client_async, scn['server_async'], None,
-        client_kwargs={'strict': scn['strict'], 'tracers': tracers,
-                       'retry_strategy': build_strategy(scn['client_strategy'])},
-        script=_net_script(scn), suffix=suffix, sched=sched,
-    )
+    if reuse is None:
+        tracers = [RecTracer(w, i, node) for i in range(scn['tracers'])]
+        st = Stack(
+            w, client_async, scn['server_async'], None,
+            client_kwargs={'strict': scn['strict'], 'tracers': tracers,
+                           'retry_strategy': build_strategy(scn['client_strategy'])},
+            script=_net_script(scn), suffix=suffix, sched=sched,
+        )
+        st.service.add_flaky(st.net.name)
+        st.dispatcher.add_methods(st.service.registry(['flaky']))
+    else:
+        st = reuse
+        st.net.script = _net_script(scn)
+        st.net.attempt = 0
+        st.net.raised = []
     obs.stack, obs.net = st, st.net
-    st.service.add_flaky(st.net.name)
-    st.dispatcher.add_methods(st.service.registry(['flaky']))
-    toks = [f'f{k}' for k in range(scn['n_elems'])]
+    toks = [f'{tok_prefix}{k}' for k in range(scn['n_elems'])]
     w.plan[('flaky', toks[0])] = _flaky_plan(scn)
     for t in toks[1:]:
         w.plan[('flaky', t)] = ['ok'] * len(scn['script'])
@@ -289,7 +300,12 @@ def run_scenario(w: World, scn: Dict[str, Any], client_async: bool, suffix: str 
     w.rec(node, 'caller.invoke', req_kind=kind, via=via)
     try:
         if client_async:
-            value = _run_async(w, st, op, scn.get('cancel_at'), obs)
+            value = _run_async(w, st, op, scn.get('cancel_at'), obs, scn.get('in_except', False))
+        elif scn.get('in_except'):
+            try:
+                raise CallerTrouble('the caller is handling this while it makes the call')
+            except CallerTrouble:
+                value = op()
         else:
             value = op()
         obs.outcome = ('value', value)
@@ -306,11 +322,20 @@ def run_scenario(w: World, scn: Dict[str, Any], client_async: bool, suffix: str 
     return obs
 
 
-def _run_async(w: World, st: Stack, op: Any, cancel_at: Optional[float], obs: Obs) -> Any:
+class CallerTrouble(Exception):
+    """An unrelated exception the caller is handling while it issues the call."""
+
+
+def _run_async(w: World, st: Stack, op: Any, cancel_at: Optional[float], obs: Obs, in_except: bool = False) -> Any:
     loop = st.loop
     assert loop is not None
 
     async def main() -> Any:
+        if in_except:
+            try:
+                raise CallerTrouble('the caller is handling this while it makes the call')
+            except CallerTrouble:
+                return await op()
         return await op()
 
     task = loop.create_task(main())
